@@ -14,6 +14,7 @@ def check(run):
         crules.list_rules(run, r[0], r[1], r[2], r[3], ast)
         crules.enum_rules(run, "C18-enum", ast)
         crules.record_rules(run, r[3], ast)
+    crules.postfix_rules(run, "C18-enum")
     run.assumptions += ["the case analysis is over the shape of the list at the call (empty / only / first / last / interior element), with the documented invariant "
                         "'first->prev points at the last node, last->next is null'; that these local updates compose to a correct list for every history is the "
                         "induction this rule is the step of - the induction itself (all histories) is not mechanised here",
